@@ -177,6 +177,17 @@ func runC07() int {
 		}
 	}
 	runs, deviating, truncated := 0, 0, 0
+	// overall budget of the deviation search (thorough: 30 windows per workload and merge, up to 10
+	// minutes each): windows not started when it ends are counted and reported, never guessed
+	windowsNotRun := 0
+	searchEnd := time.Now().Add(45 * time.Minute)
+	p.Skip = func([]byte) bool {
+		if time.Now().After(searchEnd) {
+			windowsNotRun++
+			return true
+		}
+		return false
+	}
 	var samples []string
 	p.Map(tasks, func(tb, out []byte, crash *pool.Crash) [][]byte {
 		var t c07Task
@@ -245,8 +256,10 @@ func runC07() int {
 		"distinct_nontrivial": deviating,
 		"rule":                "in-process 3-node cluster from the real components; for every workload (2-3 clients on leader/followers, 1-2 commands each) and every merge order of the client programs, the default schedule (process every Ready, deliver FIFO, submit at quiescence) and every placement of <= the deviation bound deviations (drop / duplicate / out-of-order delivery of a pooled message, campaign on a non-leader, crash of a node with restart at the next quiescence, submitting the next command before quiescence) at every decision point; non-trivial = runs with >= 1 deviation. Oracle: linearizable client history (unacknowledged commands at most once), replicas with equal applied index identical, most advanced replica = end state of a linearization, no node panic",
 		"samples":             samples,
-		"exhaustive":          truncated == 0,
+		"exhaustive":          truncated == 0 && windowsNotRun == 0,
 		"deviation_bound":     bound,
+		"search_tasks":        len(tasks),
+		"search_tasks_not_started_within_45_minutes": windowsNotRun,
 		"tasks_truncated":     truncated,
 		"workloads":           len(c07Workloads()),
 		"scripted_fault_runs": scriptRuns,
